@@ -674,6 +674,16 @@ declaratortypes(struct scope *s, struct list *result, char **name, struct scope 
 	}
 }
 
+/* 6.7.3p2 */
+static void
+checkrestrict(struct qualtype qt)
+{
+	if (!(qt.qual & QUALRESTRICT))
+		return;
+	if (qt.type->kind != TYPEPOINTER || qt.type->base->kind == TYPEFUNC)
+		error(&tok.loc, "only pointers to object types may be restrict-qualified");
+}
+
 static struct qualtype
 declarator(struct scope *s, struct qualtype base, char **name, struct scope **funcscope, bool allowabstract)
 {
@@ -687,6 +697,7 @@ declarator(struct scope *s, struct qualtype base, char **name, struct scope **fu
 	declaratortypes(s, &result, name, funcscope, allowabstract);
 	for (l = result.prev; l != &result; l = prev) {
 		prev = l->prev;
+		checkrestrict(base);
 		t = listelement(l, struct type, link);
 		tq = t->qual;
 		t->base = base.type;
@@ -725,6 +736,7 @@ declarator(struct scope *s, struct qualtype base, char **name, struct scope **fu
 		base.type = t;
 		base.qual = tq;
 	}
+	checkrestrict(base);
 
 	return base;
 }
